@@ -71,7 +71,7 @@ def c02(tier):
     # resume requested while the workflow is still pausing (actions in flight)
     run.add_jobs(jobs_for(F.curated() + F.curated_items()[:6], {"pause": 1, "resume_early": True, "cancel": 1,
                                                                 "max_nodes": sizes(tier, 1500, 6000)}, s))
-    e2 = F.with_e2(F.curated()[:10] + F.curated_items()[:11])
+    e2 = F.with_e2(F.curated()[:10] + F.curated_items()[:11] + [d for d in F.curated() + F.curated_ctx() if d["name"] in ("loop2", "loop3")])
     run.add_jobs(jobs_for(e2, {"pause": 1, "cancel": 1, "sample": sizes(tier, 3, 5), "max_nodes": sizes(tier, 1200, 6000)}, s))
     run.add_jobs(jobs_for(F.curated_delay() + F.curated_retry()[:6], {"delayed": True, "pause": 1, "cancel": 1,
                                                                      "max_nodes": sizes(tier, 1500, 6000)}, s))
@@ -95,7 +95,7 @@ def c03(tier):
     run.add_jobs(jobs_for(defs, {"pause": 1, "cancel": 1, "max_nodes": sizes(tier, 1500, 5000)}, s))
     more = F.curated_items() + F.curated_retry()
     run.add_jobs(jobs_for(more, {"pause": 1, "cancel": 1, "max_nodes": sizes(tier, 800, 5000)}, s, tok="visit"))
-    e2 = F.with_e2(F.curated()[:10] + F.curated_items()[:11])
+    e2 = F.with_e2(F.curated()[:10] + F.curated_items()[:11] + [d for d in F.curated() + F.curated_ctx() if d["name"] in ("loop2", "loop3")])
     run.add_jobs(jobs_for(e2, {"pause": 1, "cancel": 1, "sample": sizes(tier, 3, 5), "max_nodes": sizes(tier, 1200, 6000)}, s))
     run.add_jobs(jobs_for(F.curated()[:12] + F.curated_items() + F.curated_retry()[:6],
                           {"rerun": 1, "rerun_tasks": True, "max_nodes": sizes(tier, 1200, 6000)}, s))
@@ -222,7 +222,7 @@ def c10(tier):
                                  "max_nodes": sizes(tier, 1500, 6000)}, s))
     more = F.curated_items() + F.curated_retry()
     run.add_jobs(jobs_for(more, {"pause": 1, "cancel": 1, "max_nodes": sizes(tier, 800, 5000)}, s, tok="visit"))
-    e2 = F.with_e2(F.curated()[:10] + F.curated_items()[:11])
+    e2 = F.with_e2(F.curated()[:10] + F.curated_items()[:11] + [d for d in F.curated() + F.curated_ctx() if d["name"] in ("loop2", "loop3")])
     run.add_jobs(jobs_for(e2, {"cancel": 1, "sample": sizes(tier, 3, 5), "max_nodes": sizes(tier, 1200, 6000)}, s))
     return run.finish("model_checking",
                       "cancel requested at every position (from running, pausing, paused, resuming) of every explored history",
